@@ -64,6 +64,30 @@ Fixpoint hash_partition (p : hashp) (m : msg) (n r : Z) : pout :=
     end
   end.
 
+(* The same method with an explicit bound on the call depth (None = the bound was reached before the call
+   returned): FbSelf re-enters the receiver.  Used to justify the [Diverge] outcome above. *)
+Fixpoint hash_partition_fuel (fuel : nat) (p : hashp) (m : msg) (n r : Z) : option pout :=
+  match fuel with
+  | O => None
+  | S f =>
+    match p with
+    | HashP fb hf ra =>
+      match m_key m with
+      | KNil => match fb with
+                | FbRandom => Some (random_partition n r)
+                | FbHash q => hash_partition_fuel f q m n r
+                | FbSelf => hash_partition_fuel f p m n r
+                | FbNil => Some Panic
+                end
+      | KEncErr e => Some (Fail e)
+      | KBytes b => match hf b with
+                    | HErr e => Some (Fail e)
+                    | HSum h => if n =? 0 then Some Panic else Some (Chose (hash_choice ra h n))
+                    end
+      end
+    end
+  end.
+
 (* ---------- constructors and options ---------- *)
 Definition new_hash : hashp := HashP FbRandom fnv_hasher false.            (* NewHashPartitioner *)
 Definition new_reference_hash : hashp := HashP FbRandom fnv_hasher true.   (* NewReferenceHashPartitioner *)
